@@ -55,6 +55,9 @@ head is recorded (bucket `L1Height`), `none` otherwise. -/
 structure Node where
   chain : List Block := []
   l1 : Option Nat := none
+  /-- the recorded L1 head is the zero struct `core.L1Head{}` (number 0, nil hash, nil root): then
+  `l1 = some 0`, and `isL1Verified`'s test `l1 != core.L1Head{}` takes it for "no L1 head". -/
+  l1Zero : Bool := false
 deriving Repr, DecidableEq, Inhabited
 
 inductive Ver | v8 | v9 | v10
@@ -121,6 +124,7 @@ inductive Ans
   | status (fin : Fin) (reverted : Bool)
   | update (blockHash newRoot oldRoot : Nat) (d : Diff)
   | valueAt (v lastUpdate : Nat)               -- v10 getStorageAt with INCLUDE_LAST_UPDATE_BLOCK
+  | crash                                       -- the handler panics (nil pointer dereference)
   | pendingBlock (parent : Nat)                 -- v8 `pending`: no hash, no number, no transactions
   | pendingUpdate (oldRoot : Nat) (d : Diff)    -- v8 `pending` state update: no block hash / new root
 deriving Repr, DecidableEq, Inhabited
@@ -265,7 +269,13 @@ def revert (nd : Node) : Option Node :=
   if nd.chain.isEmpty then none else some { nd with chain := nd.chain.dropLast }
 
 /-- `SetL1Head` (the revert path never touches the recorded L1 head). -/
-def setL1 (nd : Node) (l : Option Nat) : Node := { nd with l1 := l }
+def setL1 (nd : Node) (l : Option Nat) : Node := { nd with l1 := l, l1Zero := false }
+
+/-- `SetL1Head(&core.L1Head{})`. -/
+def setL1Zero (nd : Node) : Node := { nd with l1 := some 0, l1Zero := true }
+
+/-- The L1 head as the finality rule sees it (`l1Head()` + `l1 != core.L1Head{}`). -/
+def statusL1 (nd : Node) : Option Nat := if nd.l1Zero then none else nd.l1
 
 /-- Head readers answer zero for a missing contract's storage; history readers answer
 `ErrKeyNotFound` when the value is zero and the contract is not deployed at that block. -/
@@ -342,7 +352,7 @@ def blockById (ver : Ver) (nd : Node) : BlockId → Except Err Block
 
 def hdrOf (nd : Node) (b : Block) : Hdr :=
   { number := b.number, hash := b.hash, parent := b.parent, root := b.root,
-    status := finality b.number nd.l1 }
+    status := finality b.number (statusL1 nd) }
 
 /-! ## v8 `pending` (rpc/v8/pending_wrapper.go, sync.MakeEmptyPendingForParent) -/
 
@@ -410,7 +420,7 @@ def blockWithTxs (ver : Ver) (nd : Node) (id : BlockId) : Ans :=
 def blockWithReceiptsStored (ver : Ver) (nd : Node) (id : BlockId) : Ans :=
   match blockById ver nd id with
   | .error e => .err e
-  | .ok b => .blockReceipts (hdrOf nd b) (b.txs.map (fun t => (t, finality b.number nd.l1)))
+  | .ok b => .blockReceipts (hdrOf nd b) (b.txs.map (fun t => (t, finality b.number (statusL1 nd))))
 
 def blockWithReceipts (ver : Ver) (nd : Node) (id : BlockId) : Ans :=
   if isV8Pending ver id then (match pendingOf nd with | some p => .pendingBlock p.parent | none => .err .blockNotFound)
@@ -472,7 +482,7 @@ def transactionReceipt (nd : Node) (h : Nat) : Ans :=
   | some (n, i) =>
     match txAndBlockHash nd n i with
     | none => .err .txnHashNotFound
-    | some (t, bh) => .receipt t (finality n nd.l1) n bh
+    | some (t, bh) => .receipt t (finality n (statusL1 nd)) n bh
 
 /-- `TransactionStatus` (no feeder client). -/
 def transactionStatus (nd : Node) (h : Nat) : Ans :=
@@ -481,7 +491,7 @@ def transactionStatus (nd : Node) (h : Nat) : Ans :=
   | some (n, i) =>
     match txByNumberAndIndex nd n i with
     | none => .err .txnHashNotFound
-    | some t => .status (finality n nd.l1) t.reverted
+    | some t => .status (finality n (statusL1 nd)) t.reverted
 
 /-- v10 `contract_addresses` (`AddressList.Contains`): an empty list keeps everything; storage
 diffs, nonces, deployed and replaced entries are filtered by address, declarations are not.
@@ -579,19 +589,37 @@ def storageAtWithLastUpdate (be : Backend) (nd : Node) (id : BlockId) (a k : Nat
 
 /-! ## The wire layer: block-id decoding and dispatch -/
 
-/-- A block id as it arrives (already JSON-decoded): a string, an object with optional
-`block_hash` / `block_number` members of the right type, or anything else (a number, an array,
-an object whose member has the wrong type, …). -/
+/-- Two places where the code as it is today lets a malformed request through (findings, see
+Props): the harness probes the real code and tells the driver which variant it is looking at, so
+that the model follows the code before and after a repair.
+* `nullCrashes`: `jsonrpc.Server.parseParam` hands a JSON `null` for a pointer parameter to the
+  handler as a nil pointer, which the handler dereferences (a panic that leaves `HandleReader`).
+  `false`: `null` for a required parameter is refused as invalid params.
+* `nullNumberIsZero`: `BlockID.UnmarshalJSON` decodes `{"block_number": null}` with
+  `json.Unmarshal(null, &uint64)`, a no-op, i.e. as block 0. `false`: refused. -/
+structure Cfg where
+  nullCrashes : Bool := true
+  nullNumberIsZero : Bool := true
+deriving Repr, DecidableEq, Inhabited
+
+/-- A block id as it arrives (already JSON-decoded): `null`; a string; an object with optional
+`block_hash` / `block_number` members of the right type; an object without `block_hash` whose
+`block_number` is `null`; or anything else (a number, an array, an object whose member has the
+wrong type — a float, a negative or too large number, a string where a number is required, a
+`null` block_hash —, …). -/
 inductive RawId
+  | null
   | tag (s : String)
   | obj (hash : Option Nat) (number : Option Nat)
+  | objNullNumber
   | other
 deriving Repr, DecidableEq, Inhabited
 
-/-- `BlockID.UnmarshalJSON` of the three packages. A string must be a tag the version knows; in
-an object `block_hash` wins over `block_number`; everything else is a decoding error, which
-`jsonrpc.Server.buildArguments` turns into "invalid params". -/
-def decodeId (ver : Ver) : RawId → Except Err BlockId
+/-- `BlockID.UnmarshalJSON` of the three packages (never called for `null`, see `withId`). A
+string must be a tag the version knows; in an object `block_hash` wins over `block_number`;
+everything else is a decoding error, which `jsonrpc.Server.buildArguments` turns into "invalid
+params". -/
+def decodeId (cfg : Cfg) (ver : Ver) : RawId → Except Err BlockId
   | .tag s =>
     if s == "latest" then .ok .latest
     else match ver with
@@ -603,6 +631,8 @@ def decodeId (ver : Ver) : RawId → Except Err BlockId
   | .obj (some h) _ => .ok (.hash h)
   | .obj none (some n) => .ok (.number n)
   | .obj none none => .error .invalidParams
+  | .objNullNumber => if cfg.nullNumberIsZero then .ok (.number 0) else .error .invalidParams
+  | .null => .error .invalidParams
   | .other => .error .invalidParams
 
 /-- A read request as it arrives. -/
@@ -626,37 +656,93 @@ inductive Request
   | classAt (id : RawId) (a : Nat)
 deriving Repr, DecidableEq, Inhabited
 
-def withId (ver : Ver) (raw : RawId) (k : BlockId → Ans) : Ans :=
-  match decodeId ver raw with
-  | .ok id => k id
-  | .error e => .err e
+/-- Hand the decoded block id to the handler. `ptrV8`: does the v8 handler take a `*BlockID`
+(BlockWithTxHashes, BlockWithTxs, BlockWithReceipts, TransactionByBlockIDAndIndex, StorageAt) or a
+`BlockID` by value (the others: `null` then fails to decode)? v9 / v10 handlers all take pointers.
+A `null` id becomes a nil pointer that every handler dereferences first. -/
+def withId (cfg : Cfg) (ver : Ver) (ptrV8 : Bool) (raw : RawId) (k : BlockId → Ans) : Ans :=
+  match raw with
+  | .null =>
+    if cfg.nullCrashes && (ver != .v8 || ptrV8) then .crash else .err .invalidParams
+  | _ =>
+    match decodeId cfg ver raw with
+    | .ok id => k id
+    | .error e => .err e
 
 /-- The whole read path of one API version on one backend: decode, dispatch, handle. A negative
 transaction index is refused by the handler before the block id is looked at (but after it was
-decoded). -/
-def serve (be : Backend) (ver : Ver) (nd : Node) : Request → Ans
+decoded; a nil id is not looked at either). -/
+def serve (cfg : Cfg) (be : Backend) (ver : Ver) (nd : Node) : Request → Ans
   | .blockNumber => blockNumber nd
   | .blockHashAndNumber => blockHashAndNumber nd
-  | .blockWithTxHashes raw => withId ver raw (blockWithTxHashes ver nd)
-  | .blockWithTxs raw => withId ver raw (blockWithTxs ver nd)
-  | .blockWithReceipts raw => withId ver raw (blockWithReceipts ver nd)
-  | .blockTransactionCount raw => withId ver raw (blockTransactionCount ver nd)
-  | .stateUpdate raw f => withId ver raw (fun id => stateUpdate ver nd id f)
+  | .blockWithTxHashes raw => withId cfg ver true raw (blockWithTxHashes ver nd)
+  | .blockWithTxs raw => withId cfg ver true raw (blockWithTxs ver nd)
+  | .blockWithReceipts raw => withId cfg ver true raw (blockWithReceipts ver nd)
+  | .blockTransactionCount raw => withId cfg ver false raw (blockTransactionCount ver nd)
+  | .stateUpdate raw f => withId cfg ver false raw (fun id => stateUpdate ver nd id f)
   | .transactionByHash h => transactionByHash nd h
   | .transactionReceipt h => transactionReceipt nd h
   | .transactionStatus h => transactionStatus nd h
   | .transactionByBlockIdAndIndex raw i =>
-    withId ver raw (fun id =>
+    if raw == .null && cfg.nullCrashes && i < 0 then .err .invalidTxIndex
+    else withId cfg ver true raw (fun id =>
       if i < 0 then .err .invalidTxIndex else transactionByBlockIdAndIndex ver nd id i.toNat)
-  | .storageAt a k raw => withId ver raw (fun id => storageAt be ver nd id a k)
+  | .storageAt a k raw => withId cfg ver true raw (fun id => storageAt be ver nd id a k)
   | .storageAtWithLastUpdate a k raw =>
     match ver with
-    | .v10 => withId ver raw (fun id => storageAtWithLastUpdate be nd id a k)
+    | .v10 => withId cfg ver true raw (fun id => storageAtWithLastUpdate be nd id a k)
     | _ => .err .invalidParams
-  | .nonce raw a => withId ver raw (fun id => nonce be ver nd id a)
-  | .classHashAt raw a => withId ver raw (fun id => classHashAt be ver nd id a)
-  | .classByHash raw c => withId ver raw (fun id => classByHash be ver nd id c)
-  | .classAt raw a => withId ver raw (fun id => classAt be ver nd id a)
+  | .nonce raw a => withId cfg ver false raw (fun id => nonce be ver nd id a)
+  | .classHashAt raw a => withId cfg ver false raw (fun id => classHashAt be ver nd id a)
+  | .classByHash raw c => withId cfg ver false raw (fun id => classByHash be ver nd id c)
+  | .classAt raw a => withId cfg ver false raw (fun id => classAt be ver nd id a)
+
+/-- Requests whose required NON-id argument is JSON `null` (the block id `raw` may be anything). -/
+inductive NullRequest
+  | txHash                                 -- getTransactionByHash / Receipt / Status [null]
+  | index (id : RawId)                     -- getTransactionByBlockIdAndIndex [id, null]
+  | nonceAddr (id : RawId)
+  | classHashAtAddr (id : RawId)
+  | classAtAddr (id : RawId)
+  | classHash (id : RawId)
+  | storageAddr (k : Nat) (id : RawId)
+  | storageKey (a : Nat) (id : RawId)
+deriving Repr, DecidableEq, Inhabited
+
+/-- What the state methods do with a nil address / key / class hash: nothing until the state of
+the block id is open (an error of that step is the answer), then they dereference it. -/
+def afterState (be : Backend) (ver : Ver) (nd : Node) (id : BlockId) : Ans :=
+  match stateById be ver nd id with
+  | .error e => .err e
+  | .ok _ => .crash
+
+/-- `null` where a felt / an index is required. As the code is (`nullCrashes`): v9 / v10 take
+every felt by pointer and crash when they reach it; v8 takes felts by value (decoding `null`
+fails: invalid params) except in StorageAt; an index is an `int` by value, for which `null` is
+a no-op, i.e. index 0. v8 / v9 StorageAt probe the class hash of the contract before they touch
+the key; v10 StorageAt reads the slot at once. Repaired (`!nullCrashes`): invalid params throughout. -/
+def serveNull (cfg : Cfg) (be : Backend) (ver : Ver) (nd : Node) : NullRequest → Ans
+  | .txHash => if cfg.nullCrashes && ver != .v8 then .crash else .err .invalidParams
+  | .index raw =>
+    if cfg.nullCrashes then serve cfg be ver nd (.transactionByBlockIdAndIndex raw 0) else .err .invalidParams
+  | .nonceAddr raw | .classHashAtAddr raw | .classAtAddr raw | .classHash raw =>
+    if cfg.nullCrashes && ver != .v8 then withId cfg ver false raw (afterState be ver nd)
+    else .err .invalidParams
+  | .storageAddr _ raw =>
+    if cfg.nullCrashes then withId cfg ver true raw (afterState be ver nd) else .err .invalidParams
+  | .storageKey a raw =>
+    if !cfg.nullCrashes then .err .invalidParams
+    else withId cfg ver true raw (fun id =>
+      match stateById be ver nd id with
+      | .error e => .err e
+      | .ok st =>
+        match ver with
+        | .v10 =>
+          -- v10 reads the slot first: every reader dereferences the key at once, except the new
+          -- backend's history reader, which checks that the contract is deployed before
+          if be == .new && st.kind == .history && !deployedIn st.blocks a then .err .contractNotFound
+          else .crash
+        | _ => if deployedIn st.blocks a then .crash else .err .contractNotFound)
 
 /-! ## Specification side (not used by the handlers): what an identifier denotes -/
 
@@ -687,12 +773,14 @@ inductive Op
   | store (b : Block)
   | revert
   | setL1 (l : Option Nat)
+  | setL1Zero
 deriving Repr, Inhabited
 
 def applyOp (nd : Node) : Op → Node
   | .store b => (store nd b).getD nd
   | .revert => (revert nd).getD nd
   | .setL1 l => setL1 nd l
+  | .setL1Zero => setL1Zero nd
 
 /-- The node after a history of operations, starting from the empty database. -/
 def run (ops : List Op) : Node := ops.foldl applyOp {}
